@@ -176,9 +176,21 @@ def apply_mutation(seed, off, w, v):
     return bytes(b)
 
 
-def run_batch(ctx, kind, seed, muts, aux=(), label="", expect_err_on_truncate=False, must_not_be_ok=None, entry=None):
+def run_batch(ctx, kind, seed, muts, aux=(), label="", expect_err_on_truncate=False, must_not_be_ok=None, entry=None, sig_extra=None):
     """run all mutations of one seed through one entry point; turns results into violations"""
     entry = entry or kind
+    if sig_extra:
+        # every signature of this batch carries the extra keys (e.g. the shape of a from-scratch input), so that a listed finding about
+        # that shape cannot mask a violation found by ordinary faults, and vice versa
+        real = ctx
+
+        class _Tagged:
+            def __getattr__(self, a):
+                return getattr(real, a)
+
+            def violation(self, k, sig, *a, **kw):
+                return real.violation(k, dict(sig, **sig_extra), *a, **kw)
+        ctx = _Tagged()
     sd = digest(kind, seed)
     seedf = ctx.write("seed-%s.bin" % sd, seed)
     mutf = ctx.write("mut-%s.bin" % sd, b"".join(struct.pack("<IBQ", o, w, v) for o, w, v, _ in muts))
